@@ -1,3 +1,3 @@
--- This module serves as the root of the `PP` library.
--- Import modules here that should be built as part of the library.
-import PP.Basic
+import PP.Model.Pairing
+import PP.Model.Mont
+import PP.Spec.Hash
